@@ -1,4 +1,4 @@
-/- C08 — `foreach` with removal: which cells get visited (helper lemmas). -/
+/- C08 — `foreach` with calls from inside the callback: which cells get visited (helper lemmas). -/
 import TboxModel.C08.CabProofs
 namespace Tbox.C08
 namespace Cab
@@ -17,51 +17,99 @@ theorem free_live_mono (c : Cab) (t : Token) (p : Nat) (x : Cell)
         · cases h
       · exact h
 
-theorem freeAll_live_mono (c : Cab) (ts : List Token) (p : Nat) (x : Cell)
-    (h : (c.freeAll ts).cells[p]? = some x) (hx : x.id ≠ 0) : c.cells[p]? = some x := by
-  induction ts generalizing c with
-  | nil => exact h
-  | cons t ts ih => exact free_live_mono c t p x (ih _ h) hx
+/-- an entry carrying an id issued before (`≤ L ≤ last_id_`) that is live after a call was live,
+under the same id and in the same cell, before it: ids are never re-issued -/
+theorem act_old_mono (c : Cab) (a : CbAct) (p : Nat) (x : Cell) (L : Nat) (hi : Inv c)
+    (hL : L ≤ c.lastId) (hnw : (c.act a).1.wrapped = false)
+    (h : (c.act a).1.cells[p]? = some x) (hx : x.id ≠ 0) (hxl : x.id ≤ L) :
+    ∃ y, c.cells[p]? = some y ∧ y.id = x.id := by
+  cases a with
+  | alloc o =>
+      have hne : c.lastId ≠ sizeMax := by
+        intro e
+        have := alloc_wrapped c o
+        simp only [act] at hnw
+        rw [hnw, e] at this; simp at this
+      simp only [act] at h
+      rcases inv_first c hi with ⟨hf, _⟩ | ⟨hf, cell, hcell, _⟩
+      · rw [alloc_push c o hf hne] at h
+        simp only [List.getElem?_append] at h
+        split at h
+        · exact ⟨x, h, rfl⟩
+        · cases hq : p - c.cells.length with
+          | zero => simp [hq] at h; subst h; simp at hxl; omega
+          | succ n => simp [hq] at h
+      · rw [alloc_reuse c o cell hf hcell hne] at h
+        simp only [List.getElem?_set] at h
+        split at h
+        · split at h
+          · cases h; simp at hxl; omega
+          · cases h
+        · exact ⟨x, h, rfl⟩
+  | update t o =>
+      simp only [act, update] at h
+      cases hl : c.lookup t with
+      | none => simp only [hl] at h; exact ⟨x, h, rfl⟩
+      | some old =>
+          simp only [hl, List.getElem?_set] at h
+          obtain ⟨_, hcell⟩ := (lookup_some c t old).1 hl
+          split at h
+          · rename_i e
+            split at h
+            · cases h; exact ⟨⟨t.id, old⟩, e ▸ hcell, rfl⟩
+            · cases h
+          · exact ⟨x, h, rfl⟩
+  | free t => exact ⟨x, free_live_mono c t p x h hx, rfl⟩
+  | clear => simp [act, clear] at h
 
-theorem free_length (c : Cab) (t : Token) : (c.free t).1.cells.length = c.cells.length := by
-  unfold free; split <;> simp
-
-theorem freeAll_length (c : Cab) (ts : List Token) : (c.freeAll ts).cells.length = c.cells.length := by
-  induction ts generalizing c with
-  | nil => rfl
-  | cons t ts ih => simp only [freeAll]; rw [ih, free_length]
+theorem runActs_old_mono (c : Cab) (as : List CbAct) (p : Nat) (x : Cell) (L : Nat) (hi : Inv c)
+    (hL : L ≤ c.lastId) (hnw : (c.runActs as).wrapped = false)
+    (h : (c.runActs as).cells[p]? = some x) (hx : x.id ≠ 0) (hxl : x.id ≤ L) :
+    ∃ y, c.cells[p]? = some y ∧ y.id = x.id := by
+  induction as generalizing c with
+  | nil => exact ⟨x, h, rfl⟩
+  | cons a as ih =>
+      have hwa : (c.act a).1.wrapped = false := by
+        cases hq : (c.act a).1.wrapped with
+        | false => rfl
+        | true => have := runActs_wrapped_mono _ as hq; simp only [runActs] at hnw; rw [hnw] at this; cases this
+      have h1 := act_inv c a hi hwa
+      obtain ⟨y, hy, hyid⟩ := ih _ h1.1 (Nat.le_trans hL h1.2) hnw h
+      obtain ⟨z, hz, hzid⟩ := act_old_mono c a p y L hi hL hwa hy (by omega) (by omega)
+      exact ⟨z, hz, by omega⟩
 
 /-- the state of the iteration after the cell positions `< n` have been handled -/
-structure EachInv (c : Cab) (f : Nat → List Token) (n : Nat) (st : Cab × List (Nat × Nat)) : Prop where
-  cab : st.1 = c.freeAll ((List.range st.2.length).flatMap f)
+structure EachInv (c : Cab) (f : Nat → List CbAct) (n : Nat) (st : Cab × List (Nat × Nat)) : Prop where
+  cab : st.1 = c.runActs ((List.range st.2.length).flatMap f)
   bound : ∀ q, q ∈ st.2 → q.1 < n
   sorted : (st.2.map (·.1)).Pairwise (· < ·)
   wasLive : ∀ (k : Nat) (hk : k < st.2.length), ∃ id, id ≠ 0 ∧
-      (c.freeAll ((List.range k).flatMap f)).cells[(st.2[k]).1]? = some ⟨id, (st.2[k]).2⟩
-  covered : ∀ (p : Nat) (cell : Cell), p < n → st.1.cells[p]? = some cell → cell.id ≠ 0 → (p, cell.w) ∈ st.2
+      (c.runActs ((List.range k).flatMap f)).cells[(st.2[k]).1]? = some ⟨id, (st.2[k]).2⟩
+  covered : st.1.wrapped = false → ∀ (p : Nat) (x : Cell), p < n → st.1.cells[p]? = some x → x.id ≠ 0 →
+      x.id ≤ c.lastId → p ∈ st.2.map (·.1)
 
-theorem eachStep_inv (c : Cab) (f : Nat → List Token) (n : Nat) (st : Cab × List (Nat × Nat))
-    (h : EachInv c f n st) : EachInv c f (n + 1) (eachStep f st n) := by
+theorem eachStep_inv (c : Cab) (f : Nat → List CbAct) (n : Nat) (st : Cab × List (Nat × Nat))
+    (hc0 : Inv c) (h : EachInv c f n st) : EachInv c f (n + 1) (eachStep f st n) := by
   unfold eachStep
   cases hc : st.1.cells[n]? with
   | none =>
       refine ⟨h.cab, fun q hq => Nat.lt_succ_of_lt (h.bound q hq), h.sorted, h.wasLive, ?_⟩
-      intro p cell hp hcell hid
+      intro hw p cell hp hcell hid hold
       by_cases e : p = n
       · subst e; rw [hc] at hcell; cases hcell
-      · exact h.covered p cell (by omega) hcell hid
+      · exact h.covered hw p cell (by omega) hcell hid hold
   | some cell =>
       by_cases hid : cell.id = 0
       · simp only [hid, ne_eq, not_true_eq_false, if_false]
         refine ⟨h.cab, fun q hq => Nat.lt_succ_of_lt (h.bound q hq), h.sorted, h.wasLive, ?_⟩
-        intro p x hp hx hxid
+        intro hw p x hp hx hxid hold
         by_cases e : p = n
         · subst e; rw [hc] at hx; cases hx; exact absurd hid hxid
-        · exact h.covered p x (by omega) hx hxid
+        · exact h.covered hw p x (by omega) hx hxid hold
       · simp only [ne_eq, hid, not_false_eq_true, if_true]
         refine ⟨?_, ?_, ?_, ?_, ?_⟩
         · simp only [List.length_append, List.length_singleton, List.range_succ, List.flatMap_append,
-            List.flatMap_singleton, freeAll_append]
+            List.flatMap_singleton, runActs_append]
           rw [← h.cab]
         · intro q hq
           simp only [List.mem_append, List.mem_singleton] at hq
@@ -84,23 +132,30 @@ theorem eachStep_inv (c : Cab) (f : Nat → List Token) (n : Nat) (st : Cab × L
             rw [List.getElem_append_right (Nat.le_refl _)]
             simp only [Nat.sub_self, List.getElem_singleton]
             exact ⟨cell.id, hid, by rw [← h.cab]; exact hc⟩
-        · intro p x hp hx hxid
-          have hx' := freeAll_live_mono _ _ p x hx hxid
-          simp only [List.mem_append, List.mem_singleton]
+        · intro hw p x hp hx hxid hold
+          simp only at hw hx
+          have hw0 : st.1.wrapped = false := by
+            cases hq : st.1.wrapped with
+            | false => rfl
+            | true => have := runActs_wrapped_mono _ (f st.2.length) hq; rw [hw] at this; cases this
+          have hst : Inv st.1 ∧ c.lastId ≤ st.1.lastId := by
+            rw [h.cab] at hw0 ⊢; exact runActs_inv c _ hc0 hw0
+          obtain ⟨y, hy, hyid⟩ := runActs_old_mono st.1 _ p x c.lastId hst.1 hst.2 hw hx hxid hold
+          simp only [List.map_append, List.map_singleton, List.mem_append, List.mem_singleton]
           by_cases e : p = n
-          · subst e; rw [hc] at hx'; cases hx'; right; rfl
-          · left; exact h.covered p x (by omega) hx' hxid
+          · right; exact e
+          · left; exact h.covered hw0 p y (by omega) hy (by omega) (by omega)
 
-theorem foreach_inv (c : Cab) (f : Nat → List Token) (n : Nat) :
+theorem foreach_inv (c : Cab) (f : Nat → List CbAct) (hc0 : Inv c) (n : Nat) :
     EachInv c f n ((List.range n).foldl (eachStep f) (c, [])) := by
   induction n with
   | zero =>
       refine ⟨rfl, by simp, by simp, ?_, ?_⟩
       · intro k hk; simp at hk
-      · intro p cell hp; omega
+      · intro _ p cell hp; omega
   | succ n ih =>
       rw [List.range_succ, List.foldl_append]
-      exact eachStep_inv c f n _ ih
+      exact eachStep_inv c f n _ hc0 ih
 
 end Cab
 end Tbox.C08
